@@ -5,6 +5,7 @@ import bvsym as sx
 from bvsym import core
 import simnet
 from simnet import Kernel, Net, accept_for
+from .common import reset_cookie_jar
 from .common import Obligation, cover, quiet_logging
 
 PROPERTY = "C20"
@@ -74,7 +75,7 @@ def j_hist(nresp, merged=False, client_cookie=False, redirect=False):
     quiet_logging()
     import websocket
     import websocket._handshake as HS
-    HS.CookieJar.jar.clear()
+    reset_cookie_jar()
     ref = {}  # normalised domain -> {name: value}
     for r in range(nresp):
         dom = DOMAINS[sx.choice("dom%d" % r, len(DOMAINS))]
@@ -124,7 +125,7 @@ def j_hostopt(target_i, hostopt_i):
     quiet_logging()
     import websocket
     import websocket._handshake as HS
-    HS.CookieJar.jar.clear()
+    reset_cookie_jar()
     HS.CookieJar.add("a=1; Domain=x.com")
     HS.CookieJar.add("b=2; Domain=other.org")
     target = ("x.com", "s.x.com", "other.org", "none.example")[target_i]
@@ -138,7 +139,7 @@ def j_hostopt(target_i, hostopt_i):
     finally:
         k.shutdown()
         simnet.uninstall()
-        HS.CookieJar.jar.clear()
+        reset_cookie_jar()
     lines = net.requests[0][2].split("\r\n")
     got = [l for l in lines if l.lower().startswith("cookie:")]
     exp = {"x.com": ["Cookie: a=1"], "s.x.com": ["Cookie: a=1"], "other.org": ["Cookie: b=2"], "none.example": []}[target]
